@@ -213,13 +213,13 @@ package bexpr
 //@     decreases i + 1
 
 //@ func evaluateMatchExpression(expression, datum, opt) (res, err)
-//@   requires wfMatchP(expression) && wfOpts(opt)
+//@   requires wfMatchP(expression) && wfOpts(opt) && allCacheOK()
 //@   ensures[C09] err_false: err != nil ==> !res
 //@   ensures[C01,C04,C05] spec: outcome(res, err) == EvalMatchP(expression, datum, absOpts(FoldOpts(opt)))
 //@   assigns nothing
 
 //@ func evaluateCollectionExpression(expression, datum, opt) (res, err)
-//@   requires wf(box[*grammar.CollectionExpression](expression)) && wfOpts(opt)
+//@   requires wf(box[*grammar.CollectionExpression](expression)) && wfOpts(opt) && allCacheOK()
 //@   ensures[C09] err_false: err != nil ==> !res
 //@   ensures[C01,C06,C14] spec: outcome(res, err) == EvalCollP(expression, datum, absOpts(FoldOpts(opt)))
 //@   decreases 2 * astSize(box[*grammar.CollectionExpression](expression))
@@ -232,14 +232,14 @@ package bexpr
 //@     decreases rlen(collVal(expression, datum, absOpts(FoldOpts(opt)))) - i
 
 //@ func evaluate(ast, datum, opt) (res, err)
-//@   requires wf(ast) && wfOpts(opt)
+//@   requires wf(ast) && wfOpts(opt) && allCacheOK()
 //@   ensures[C09] err_false: err != nil ==> !res
 //@   ensures[C01,C03] spec: outcome(res, err) == Eval(ast, datum, absOpts(FoldOpts(opt)))
 //@   decreases 2 * astSize(ast) + 1
 //@   assigns nothing
 
 //@ func Evaluator.Evaluate(eval, datum) (res, err)
-//@   requires eval != nil && wf(eval.ast)
+//@   requires eval != nil && wf(eval.ast) && allCacheOK()
 //@   ensures[C09] err_false: err != nil ==> !res
 //@   ensures[C01,C18] spec: outcome(res, err) == Eval(eval.ast, datum, mk.AOpts(eval.tagName, eval.valueTransformationHook, eval.unknownVal != nil, heap(deref.Any)[eval.unknownVal], zero[[]localVariable]))
 //@   assigns nothing
@@ -251,7 +251,7 @@ package bexpr
 //@   assigns nothing
 
 //@ func compileRegexps(expr) ()
-//@   requires wf(expr)
-//@   ensures wf(expr)
+//@   requires wf(expr) && allCacheOK()
+//@   ensures[C13,C12,C01] allCacheOK()
 //@   decreases astSize(expr)
 //@   assigns grammar.MatchValue.Converted
